@@ -314,7 +314,7 @@ class ImplRunner:
 
     def do_send(self, op):
         i = op['i']
-        L = self.layers[i]
+        L = self.layers.get(i)      # None: the layer could not be constructed (the model answers "bad-layer" too)
         rid = op['id']
         self.cur_id = rid
         tat = op.get('tat')
@@ -333,6 +333,9 @@ class ImplRunner:
             payload = bytes(op['data'])
             data = bytearray(payload)
             line = 'send %d %d %d %s %s 0' % (i, rid, len(payload), hexs(payload), 'N' if tat is None else tat)
+        if L is None:
+            self.plain(line, 'bad-layer')
+            return
         kw = {}
         if tat is not None:
             kw['target_address_type'] = tat
@@ -349,14 +352,21 @@ class ImplRunner:
         i = op['i']
         dt = op.get('dt', 0)
         m = isotp.CanMessage(arbitration_id=op['id'], data=bytes(op['data']), extended_id=bool(op.get('ext', False)))
+        line = 'frame %d %d %d %d %s' % (i, dt, op['id'], 1 if op.get('ext') else 0, hexs(op['data']))
+        if i not in self.layers:
+            self.plain(line, 'bad-layer')
+            return
         self.inbox[i].append((dt, m))
-        self.finish(i, 'frame %d %d %d %d %s' % (i, dt, op['id'], 1 if op.get('ext') else 0, hexs(op['data'])), 'ok')
+        self.finish(i, line, 'ok')
 
     def do_process(self, op):
         i = op['i']
-        L = self.layers[i]
         do_rx = op.get('rx', True)
         do_tx = op.get('tx', True)
+        if i not in self.layers:
+            self.plain('process %d %d %d' % (i, do_rx, do_tx), 'bad-layer')
+            return
+        L = self.layers[i]
         try:
             st = L.process(do_rx=do_rx, do_tx=do_tx)
             res = 'stats %d %d %d %d' % (st.received, st.received_processed, st.sent, st.frame_received)
@@ -370,11 +380,17 @@ class ImplRunner:
 
     def do_recv(self, op):
         i = op['i']
+        if i not in self.layers:
+            self.plain('recv %d' % i, 'bad-layer')
+            return
         r = self.layers[i].recv()
         self.finish(i, 'recv %d' % i, 'None' if r is None else 'data %s' % hexs(r))
 
     def _simple(self, op, name):
         i = op['i']
+        if i not in self.layers:
+            self.plain('%s %d' % (name, i), 'bad-layer')
+            return
         try:
             getattr(self.layers[i], name)()
             res = 'ok'
@@ -467,6 +483,10 @@ class ImplRunner:
         # converted to a float is handed over as +inf (that is what "not finite" means for it).
         if isinstance(w, int) and not isinstance(w, bool) and not _fits_float(w):
             toks = [t if not t.startswith('rate_limit_window_size=') else 'rate_limit_window_size=finf' for t in toks]
+        for tk in ('rx_flowcontrol_timeout', 'rx_consecutive_frame_timeout'):      # the timers work with float seconds
+            v = raw.get(tk)
+            if isinstance(v, int) and not isinstance(v, bool) and not _fits_float(v):
+                toks = [t if not t.startswith(tk + '=') else tk + '=finf' for t in toks]
         if isinstance(br, int) and isinstance(w, (int, float)):
             try:
                 x = br * w
